@@ -142,10 +142,11 @@ def _place(prev, rel, w, h):
 
 
 def fam_triple(c, tier):
+    th = tier == "thorough"
     w2, h2 = c.pick([(8, 8), (16, 16)], "mid size")
-    lo = c.pick([Q(1, 2), Q(1, 4)], "line_overlap")
-    cm = c.pick([Q(1), Q(2)], "char_margin")
-    wm = c.pick([Q(1, 4), Q(1, 8)], "word_margin")
+    lo = c.pick(LO if th else [Q(1, 2), Q(1, 4)], "line_overlap")
+    cm = c.pick(CM if th else [Q(1), Q(2)], "char_margin")
+    wm = c.pick(WM if th else [Q(1, 4), Q(1, 8)], "word_margin")
     g1 = G("a", 0, 0, 8, 8)
     r12 = c.pick(_rel_options(lo, cm, wm, 8, 8, w2, h2), "rel12")
     u, v = _place(g1, r12, w2, h2)
@@ -168,7 +169,7 @@ def _line(texts, u0, u1, v0, h):
 
 def fam_linepair(c, tier):
     lm = c.pick(LM, "line_margin")
-    hv = c.pick([8, 16], "viewer height")
+    hv = c.pick([8, 16, 32] if tier == "thorough" else [8, 16], "viewer height")
     d = lm * hv
     dh = c.pick([Q(0)] + around(d) + [-t for t in around(d)], "height difference")
     ho = hv + dh
@@ -216,9 +217,11 @@ PERM3 = list(itertools.permutations(range(3)))
 
 
 def fam_chain(c, tier):
-    hs = c.pick(list(itertools.product((8, 16), repeat=3)), "heights")
-    g12 = c.pick(CHAIN_GAPS, "gap12")
-    g23 = c.pick(CHAIN_GAPS, "gap23")
+    th = tier == "thorough"
+    hs = c.pick(list(itertools.product((8, 16, 12) if th else (8, 16), repeat=3)), "heights")
+    gaps = CHAIN_GAPS + ([Q(11, 2), Q(6), Q(13, 2)] if th else [])
+    g12 = c.pick(gaps, "gap12")
+    g23 = c.pick(gaps, "gap23")
     perm = c.pick(PERM3, "content order")
     v = Q(0)
     lines = []
@@ -248,7 +251,8 @@ def _orders(n):
 
 
 def fam_columns(c, tier):
-    ncol, nrow = c.pick([(2, 3), (2, 2), (2, 1), (1, 3), (1, 2), (1, 1)], "grid")
+    grids = [(2, 3), (2, 2), (2, 1), (1, 3), (1, 2), (1, 1)] + ([(2, 4), (1, 4), (3, 2)] if tier == "thorough" else [])
+    ncol, nrow = c.pick(grids, "grid")
     bf = c.pick(BF, "boxes_flow")
     pitch = c.pick([16, 24], "row pitch")
     colgap = c.pick([4, 6], "column gap in pitches") * pitch
@@ -287,11 +291,11 @@ FAMILIES = {
     # name: (generator, arities of the shard-prefix choices per tier, orientations)
     "pair": (fam_pair, lambda t: [len(SIZES if t == "thorough" else SIZES_QUICK), len(LO)], "HV"),
     "pair-special": (fam_pair_special, lambda t: [2], "HV"),
-    "triple": (fam_triple, lambda t: [2, 2, 2], "HV"),
-    "linepair": (fam_linepair, lambda t: [len(LM), 2, 7], "HV"),
+    "triple": (fam_triple, lambda t: [2, 3, 3] if t == "thorough" else [2, 2, 2], "HV"),
+    "linepair": (fam_linepair, lambda t: [len(LM), 3 if t == "thorough" else 2, 7], "HV"),
     "linepair-shift": (fam_linepair_shift, lambda t: [4], "HV"),
-    "chain": (fam_chain, lambda t: [8, len(CHAIN_GAPS)], "HV"),
-    "columns": (fam_columns, lambda t: [6, len(BF)], "H"),
+    "chain": (fam_chain, lambda t: [27, len(CHAIN_GAPS) + 3] if t == "thorough" else [8, len(CHAIN_GAPS)], "HV"),
+    "columns": (fam_columns, lambda t: [9 if t == "thorough" else 6, len(BF)], "H"),
 }
 
 META = {
@@ -313,7 +317,7 @@ META = {
     ),
     "bound": {
         "quick": "all families; pair with 6 of the 16 size combinations; scales {-3,-1,1,4}, k=7 for all 8x8 pairs, k=10 for the 8x8 pairs with line_overlap 1/2, char_margin 1/2, word_margin 1/4, overlap on the threshold",
-        "thorough": "all families; pair with all 16 size combinations; scales {-3,-1,1,4}, k=7 for all 8x8 pairs, k=10 for the 8x8 pairs with line_overlap 1/2, char_margin 1/2, word_margin 1/4, overlap on the threshold",
+        "thorough": "all families; pair with all 16 size combinations; triple over the full 3x3x3 margin grid; linepair also with viewer height 32; chain also with height 12 and gaps around 6; column grids also 2x4, 1x4, 3x2; scales {-3,-1,1,4}, k=7 for all 8x8 pairs, k=10 for the 8x8 pairs with line_overlap 1/2, char_margin 1/2, word_margin 1/4, overlap on the threshold",
     },
     "assumptions": [
         "all coordinates and margins are dyadic rationals, so the implementation's float arithmetic is exact and comparisons are exact",
